@@ -37,8 +37,8 @@ func capTTL(ttl, max int64) time.Duration {
 
 func body(s *simrt.Sim, tier string) {
 	sequential := s.Choose(3, "sequential") == 0
-	maxTTL := []int64{0, 0, 2, 3}[s.Choose(4, "maxttl")]
-	interval := 150 * time.Second
+	maxTTL := []int64{0, 0, 2, 3, 1}[s.Choose(5, "maxttl")]
+	interval := []time.Duration{150 * time.Second, 0, -time.Second}[s.Choose(3, "defaultinterval")] // zero or negative: the documented default (150 s)
 	if !sequential {
 		interval = []time.Duration{time.Second, 2 * time.Second, 700 * time.Millisecond}[s.Choose(3, "interval")]
 	} else {
@@ -46,7 +46,9 @@ func body(s *simrt.Sim, tier string) {
 		// (the documented cleanup/refresh race would otherwise apply); manual Cleanup is an operation
 		s.DisableDelays()
 	}
-	keys := []string{"a", "b", "c"}[:1+s.Choose(3, "keys")]
+	// (the empty string is a key like any other)
+	keys := [][]string{{"a", "b", "c"}, {"", "b", "c"}, {"a", ""}}[s.Choose(3, "keyset")]
+	keys = keys[:1+s.Choose(len(keys), "keys")]
 	nclients := 1
 	if !sequential {
 		nclients = 2 + s.Choose(2, "clients")
